@@ -2316,6 +2316,8 @@ class InstRWInfoTable extends core.Task {
     // TODO: We should be able to get this information from asmdb.
     switch (instName + "@" + opIndex) {
       case "cmps@0": return toMap(['MemBaseRW', 'MemBasePostModify']);
+      case "ins@0" : return toMap(['MemBaseRW', 'MemBasePostModify']);
+      case "outs@1": return toMap(['MemBaseRW', 'MemBasePostModify']);
       case "cmps@1": return toMap(['MemBaseRW', 'MemBasePostModify']);
       case "movs@0": return toMap(['MemBaseRW', 'MemBasePostModify']);
       case "movs@1": return toMap(['MemBaseRW', 'MemBasePostModify']);
